@@ -1,5 +1,5 @@
 SPECIFICATION Spec
-CONSTANTS NSubs = 2 Kinds <- KindsSP B = 1 NVals = 3 DepartFix = FALSE
+CONSTANTS NSubs = 1 B = 1 Progs <- ProgsS3 Interval = 0 MaxNow = 0 DepartFix = FALSE
 INVARIANTS CommonOrder ChannelsClosedAtReturn
 PROPERTIES QuietAfterClose CloseReturns
 CHECK_DEADLOCK FALSE
